@@ -53,7 +53,8 @@ type Explorer struct {
 	Report   *ev.Report
 	Deadline time.Time
 	Scenario string
-	AuditN   int // replay every AuditN-th execution (0 = 500)
+	AuditN   int  // replay every AuditN-th execution (0 = 500)
+	NoShard  bool // the caller distributes whole scenarios over the shards: explore the full tree here
 
 	Execs    int64
 	outcomes map[string]struct{}
@@ -74,6 +75,9 @@ func (x *Explorer) Explore() bool {
 		x.outcomes = map[string]struct{}{}
 	}
 	si, sn := ev.Shard()
+	if x.NoShard {
+		si, sn = 0, 1
+	}
 	stack := []item{{nil, 0}}
 	level1 := 0
 	for len(stack) > 0 {
